@@ -9,6 +9,9 @@
  *       the asynchronous signing service on a scripted socket (PDU v2; the first request gets id 1): add the request, let the
  *       service send it and read the stream, then KSI_AsyncHandle_getSignature on the handle that comes back
  *     => A<add-status> [H<state>:<error>] [G<status> [R<signature-hex>]]
+ *   as2 <hash-imprint-hex> <level> <key-hex> <reply-stream-hex> <second-reply-stream-hex>
+ *       as `as`; the handle that came back is then added to the service again (request id 2) and the second stream is what
+ *       the server sends                                 => … | A<add-status> [H<state>:<error>] [G<status> [R<signature-hex>]]
  */
 #define VERIF_SIM_ONLY 1
 #include "exec_c13.c"
@@ -67,7 +70,8 @@ static void do_line(char *work, const char *orig) {
 		}
 		KSI_RequestHandle_free(handle); KSI_AggregationReq_free(req); KSI_DataHash_free(hsh); KSI_CTX_free(ctx);
 		unlink(uri + 7); free(h); free(login); free(key);
-	} else if (n >= 5 && !strcmp(w[0], "as")) {
+	} else if ((n >= 5 && !strcmp(w[0], "as")) || (n >= 6 && !strcmp(w[0], "as2"))) {
+		int two = !strcmp(w[0], "as2"); size_t rn2 = 0; unsigned char *reply2 = two ? unhex(w[5], &rn2) : NULL;
 		KSI_CTX *ctx = NULL; KSI_AsyncService *as = NULL; KSI_AsyncHandle *h = NULL, *out = NULL, *got = NULL; KSI_DataHash *hsh = NULL;
 		size_t hl, rn, waiting = 0; unsigned char *hb = unhex(w[1], &hl), *reply = unhex(w[4], &rn); char *key = cstr_of(w[3]); int r, k;
 		static char rs[64], ss[64];
@@ -103,6 +107,37 @@ static void do_line(char *work, const char *orig) {
 						printf(" R"); puthex(stdout, ser, sl); KSI_free(ser);
 					} else if (sig != NULL) printf(" RESULT-WITH-ERROR");
 					KSI_Signature_free(sig);
+					if (two) {
+						/* the same handle is handed to the service again; what the server says now decides */
+						KSI_AsyncHandle *got2 = NULL;
+						r = KSI_AsyncService_addRequest(as, got);
+						printf(" | A%d", r);
+						if (r == KSI_OK) {
+							got = NULL;
+							g_spos = 0; g_now += 5;         /* the next round of the rate limiter */
+							strcpy(rs, "p"); strcpy(ss, "-"); g_rp = rs; g_sp = ss; g_stream = reply2; g_slen = 0;
+							KSI_AsyncService_run(as, &out, &waiting);
+							for (k = 0; k < 3 && got2 == NULL; k++) {
+								strcpy(rs, "p"); strcpy(ss, "-"); g_rp = rs; g_sp = ss; g_stream = reply2; g_slen = rn2;
+								out = NULL;
+								KSI_AsyncService_run(as, &out, &waiting);
+								if (out != NULL) got2 = out;
+							}
+							if (got2 != NULL) {
+								int st2 = -1, err2 = 0; KSI_Signature *sig2 = NULL;
+								KSI_AsyncHandle_getState(got2, &st2); KSI_AsyncHandle_getError(got2, &err2);
+								printf(" H%d:%d", st2, err2);
+								r = KSI_AsyncHandle_getSignature(got2, &sig2);
+								printf(" G%d", r);
+								if (r == KSI_OK && sig2 != NULL) {
+									unsigned char *ser = NULL; size_t sl = 0; KSI_Signature_serialize(sig2, &ser, &sl);
+									printf(" R"); puthex(stdout, ser, sl); KSI_free(ser);
+								} else if (sig2 != NULL) printf(" RESULT-WITH-ERROR");
+								KSI_Signature_free(sig2);
+								KSI_AsyncHandle_free(got2);
+							} else printf(" H-");
+						}
+					}
 					KSI_AsyncHandle_free(got);
 				} else printf(" H-");
 			}
@@ -110,7 +145,7 @@ static void do_line(char *work, const char *orig) {
 		for (k = 0; k < g_nconn; k++) free(g_conn[k]);
 		g_nconn = 0;
 		KSI_AsyncService_free(as); KSI_CTX_free(ctx);
-		free(hb); free(reply); free(key);
+		free(hb); free(reply); free(key); free(reply2);
 	} else printf("BAD-OP");
 }
 
